@@ -277,3 +277,36 @@ pub(crate) fn wf_thread_clocks(s: &Set) -> bool {
     }
     ok
 }
+
+/// Scheduling-state validity: a terminated or yielded thread has no pending operation
+/// (`thread_done` / `yield_now` clear it), and the active thread is the one executing.
+pub(crate) fn wf_thread_ops(s: &Set) -> bool {
+    let mut ok = true;
+    let mut i = 0;
+    while i < s.threads.len() {
+        let t = &s.threads[i];
+        if matches!(t.state, State::Terminated | State::Yield) {
+            ok = ok && t.operation.is_none();
+        }
+        i += 1;
+    }
+    ok
+}
+
+/// Give every thread a symbolic pending operation: none, or an operation built by `mk(k)` for a
+/// symbolic small code `k` (the harness decides which (object, action) pairs the codes stand for).
+pub(crate) fn any_pending_ops(s: &mut Set, mk: impl Fn(u8) -> Option<Operation>) {
+    let mut i = 0;
+    while i < s.threads.len() {
+        let k: u8 = kani::any();
+        s.threads[i].operation = mk(k);
+        i += 1;
+    }
+}
+
+pub(crate) fn is_parked(v: &ThView) -> bool {
+    v.st == StView::Blocked && v.op.is_none()
+}
+pub(crate) fn has_token(v: &ThView) -> bool {
+    v.st == (StView::Runnable { unparked: true })
+}
